@@ -2,14 +2,17 @@
    Executable definitions only; no proofs.
 
    What is transcribed (liquid/context.py, output.py, template.py, ast.py, parser.py and the tags
-   for, tablerow, include, render, capture, ifchanged, assign, macro/call), in all three modes:
+   for, tablerow, include, render, capture, ifchanged, assign, macro/call, and extends / block / block.super of
+   liquid.extra), in all three modes:
 
    * Mode: an error (LErr e s) carries the state at the point where it was raised, after the context managers
      it passed have unwound (buffers of capture/ifchanged/blank blocks dropped, copied contexts dropped, writes
      already made kept).  BoundTemplate.render_with_context handles it PER TOP-LEVEL NODE of the template it
-     renders (main template and every included / rendered partial): in STRICT mode it is re-raised, in WARN and
-     LAX mode it is dropped and the next node is rendered from that state.  Parse errors are not render errors:
-     a block nesting error in WARN/LAX mode (parser recovery) is outside the model and yields [LFuel].
+     renders (main template, the base template of an inheritance chain, and every included / rendered partial):
+     in STRICT mode it is re-raised, in WARN and LAX mode it is dropped and the next node is rendered from that
+     state.  Parse errors are not render errors: a block nesting error in WARN/LAX mode (parser recovery) is
+     outside the model and yields [LFuel]; so does, in those modes, an error that escapes from the extends tag
+     itself (the rest of the child template would then be rendered).
 
    * RenderContext.raise_for_loop_limit / loop / copy(carry_loop_iterations=True): the loop stack, the
      loop-iteration carry, and (REPAIRED code) the scaling of the carry by tablerow / include-with-array /
@@ -19,10 +22,11 @@
      given; NullIO and unlimited StringIO carry 0), BlockNode's NullIO for blank blocks, capture, ifchanged.
    * RenderContext.assign / get_size_of_locals / copy(local_namespace_size_carry): sys.getsizeof is an
      ORACLE: the sizes are a stream [s_sizes] supplied from outside (the harness measures them), consumed
-     one per assignment; running out of the stream is [LFuel], never a normal result.
+     one per assignment; running out of the stream is [LFuel], never a normal result.  local_namespace_size_carry
+     is a mutable attribute of a context ([x_nsc], threaded).
    * RenderContext.extend / copy depth checks (scope-chain size, copy depth), Parser.parse_block's
      block-nesting check (per template, at the time the template is parsed: the main template before the
-     render, a partial when include/render loads it).
+     render, a partial when include/render loads it, the parents of a chain when the extends tag loads them).
    * (REPAIRED code) loop_iteration_limit = 0 and local_namespace_limit = 0 are limits; the unrepaired
      truthiness tests ("0 means no limit") are the variant [v_zero := false].
    * render-for copies a fresh isolated context for every item (the code after the C15 repair); the older
@@ -30,13 +34,35 @@
    * (REPAIRED code) LimitedStringIO writes text unchanged, like StringIO() (C08-limited-buffer-newlines.patch);
      the unrepaired universal-newline translation of "\r\n" and "\r" is not modelled.
 
+   * Template inheritance (liquid/extra/tags/extends_tag.py).  A chain of templates main -> ... -> base renders the
+     BASE template's nodes in the main context (ExtendsNode.render_to_output: two nested extends of the scope).  A
+     block tag with a stack of definitions is [Block top]: BlockNode.render_to_output renders the most derived
+     definition [top] in a block-scoped copy of the context it stands in (copy(carry_loop_iterations=True,
+     block_scope=True): empty loop stack, carry := product of the loops x carry, own locals and ifchanged state,
+     the enclosing locals still readable, disabled tags inherited).  [Super next] is {{ block.super }} with [next] the
+     next definition down (the harness inlines the chain): BlockDrop.__getitem__ renders it in a buffer of its own
+     (get_buffer of the buffer the block tag was given: a LimitedStringIO with the remaining budget) and
+       - reached from the block-scoped copy: in the BASE context (the one the block tag stands in), under
+         loop_iterations(enclosing), enclosing = iterations of the copy // iterations of the base (REPAIRED, fix
+         dec4c86; unrepaired: [v_super_loop := false]), with the base's local_namespace_size_carry raised by what
+         the copy holds and the copy's carry refreshed afterwards (REPAIRED, C07-namespace-across-block-super.patch;
+         unrepaired: [v_super_ns := false]);
+       - reached from a definition that is itself rendered in place (a parent definition, render_context = None): in
+         the current context.
+     Where no block object is in scope (top level, isolated copies made by render and macro calls) block.super is
+     undefined and renders nothing; [SuperU] is block.super in the last definition (no parent: undefined).
+     [BlockD body] is a block tag without a stack (template rendered on its own, blocks of partials and macros):
+     rendered in place, in an extended scope.
+
    Stack discipline (context managers, try/finally) is modelled by passing the context's "frame"
-   (loop stack, carries, depths) DOWN as an argument; only the mutable parts (locals, ifchanged value,
-   buffer, oracle stream, ghost logs) are threaded through.
+   (loop stack, carry, depths, what block.super refers to) DOWN as an argument; only the mutable parts (locals,
+   ifchanged value, namespace carry, the enclosing block-scoped contexts, buffer, oracle stream, ghost logs) are
+   threaded through.
 
    Ghost quantities (no counterpart in the code): f_tp = the true product of the lengths of all enclosing
-   repeating constructs; f_anc = the true total measured size of the local namespaces of all ancestor
-   contexts; s_leaf / s_nslog = logs of those at every text write / assignment. *)
+   repeating constructs; x_anc = the true total measured size of the live local namespaces that are not on the
+   current context's own scope chain (the contexts an isolated copy was made from, and block-scoped copies
+   suspended in block.super); s_leaf / s_nslog = logs at every text write / assignment. *)
 From Coq Require Import String Ascii.
 From LiquidVerif Require Import Prelude PyPrims.
 Local Open Scope Z_scope.
@@ -67,7 +93,8 @@ Definition mode_eqb (a b : mode) : bool :=
 
 (* ------------------------------------------------------------------ programs *)
 (* Partials and macro bodies are inlined in the tree: the harness gives every Include/Render body its own
-   partial template and every Call body its own macro, defined immediately before the call. *)
+   partial template and every Call body its own macro, defined immediately before the call.  Block definitions
+   are inlined too: Block carries the most derived definition, every Super in it the next definition down. *)
 Inductive node :=
 | Text (t : str)                          (* literal text (never whitespace-only) *)
 | Echo (x : N)                            (* {{ vX }} *)
@@ -80,7 +107,11 @@ Inductive node :=
 | IncludeArr (n : N) (body : list node)   (* {% include 'p' for a %}, a an array of n items *)
 | Render (body : list node)               (* {% render 'p' %} *)
 | RenderFor (n : N) (body : list node)    (* {% render 'p' for a %} *)
-| Call (body : list node).                (* {% macro m %}body{% endmacro %}{% call m %} *)
+| Call (body : list node)                 (* {% macro m %}body{% endmacro %}{% call m %} *)
+| Block (body : list node)                (* {% block b %} with a stack of definitions; body = the most derived one *)
+| BlockD (body : list node)               (* {% block b %} without a stack: rendered in place *)
+| Super (body : list node)                (* {{ block.super }}; body = the next definition down *)
+| SuperU.                                 (* {{ block.super }} in the last definition: undefined *)
 
 (* Node.blank (static): a block of blank nodes is rendered to a NullIO *)
 Fixpoint blank (nd : node) : bool :=
@@ -92,26 +123,35 @@ Fixpoint blank (nd : node) : bool :=
   end.
 Definition blank_list (l : list node) : bool := forallb blank l.
 
-(* deepest stream.block_depth reached while parsing one template (partials are parsed separately) *)
+(* deepest stream.block_depth reached while parsing one template (partials are parsed separately; so are the
+   templates of an inheritance chain, whose depths are supplied with the program: see run_prog) *)
 Fixpoint tdepth (nd : node) : Z :=
   let fix mx (l : list node) : Z := match l with [] => 0 | x :: r => Z.max (tdepth x) (mx r) end in
   match nd with
-  | Capture _ b | IfChanged b | For _ b | Tablerow _ b | Call b => 1 + mx b
+  | Capture _ b | IfChanged b | For _ b | Tablerow _ b | Call b | Block b | BlockD b => 1 + mx b
   | _ => 0
   end.
 Fixpoint tdepth_list (l : list node) : Z := match l with [] => 0 | x :: r => Z.max (tdepth x) (tdepth_list r) end.
 
-(* ---- declarative: the largest product of enclosing lengths that a complete run reaches ---- *)
-Fixpoint maxprod (tp : N) (nd : node) : N :=
-  let fix mx (tp : N) (l : list node) : N := match l with [] => 0%N | x :: r => N.max (maxprod tp x) (mx tp r) end in
+(* ---- declarative: the largest product of enclosing lengths that a complete run reaches ----
+   sup: is a block object with a parent in scope (block.super renders something)? *)
+Fixpoint maxprodS (tp : N) (sup : bool) (nd : node) : N :=
+  let fix mx (tp : N) (sup : bool) (l : list node) : N :=
+    match l with [] => 0%N | x :: r => N.max (maxprodS tp sup x) (mx tp sup r) end in
   match nd with
-  | Text _ | Echo _ | Assign _ _ => 0
-  | Capture _ b | IfChanged b | Include b | Render b | Call b => mx tp b
-  | For n b | Tablerow n b | IncludeArr n b | RenderFor n b =>
-      if (n =? 0)%N then 0 else N.max (tp * n) (mx (tp * n) b)
+  | Text _ | Echo _ | Assign _ _ | SuperU => 0
+  | Capture _ b | IfChanged b | Include b => mx tp sup b
+  | Render b | Call b | BlockD b => mx tp false b
+  | Block b => mx tp true b
+  | Super b => if sup then mx tp true b else 0
+  | For n b | Tablerow n b | IncludeArr n b => if (n =? 0)%N then 0 else N.max (tp * n) (mx (tp * n) sup b)
+  | RenderFor n b => if (n =? 0)%N then 0 else N.max (tp * n) (mx (tp * n) false b)
   end%N.
-Fixpoint maxprod_list (tp : N) (l : list node) : N :=
-  match l with [] => 0%N | x :: r => N.max (maxprod tp x) (maxprod_list tp r) end.
+Fixpoint maxprodS_list (tp : N) (sup : bool) (l : list node) : N :=
+  match l with [] => 0%N | x :: r => N.max (maxprodS tp sup x) (maxprodS_list tp sup r) end.
+(* of a whole template: no block object in scope at top level *)
+Definition maxprod (tp : N) (nd : node) : N := maxprodS tp false nd.
+Definition maxprod_list (tp : N) (l : list node) : N := maxprodS_list tp false l.
 
 (* ------------------------------------------------------------------ configuration *)
 Record limits := { l_loop : option N;   (* loop_iteration_limit *)
@@ -123,14 +163,26 @@ Record limits := { l_loop : option N;   (* loop_iteration_limit *)
 Record variant := { v_carry : bool;    (* true: tablerow/include-array/render-for scale the carry (repaired) *)
                     v_zero : bool;     (* true: a loop / namespace limit of 0 is a limit (repaired) *)
                     v_item : bool;
-                    v_rollback : bool }.   (* render-for: true = a fresh copied context per item (the code after
-                                          C15-render-for-items-share-one-context.patch); false = ONE copied context
-                                          reused for all items (locals persist from item to item).
-                                          Every theorem is proved for both. *)
-(* v_rollback: true = RenderContext.assign removes the value that breaks the namespace limit before raising
-   (repaired, C07-namespace-rollback.patch); false = the value stays (visible in WARN/LAX mode only). *)
-Definition repaired : variant := {| v_carry := true; v_zero := true; v_item := true; v_rollback := true |}.
-Definition unrepaired : variant := {| v_carry := false; v_zero := false; v_item := true; v_rollback := false |}.
+                    v_rollback : bool;
+                    v_super_loop : bool;
+                    v_super_ns : bool }.
+(* v_item: render-for: true = a fresh copied context per item (the code after
+   C15-render-for-items-share-one-context.patch); false = ONE copied context reused for all items (locals persist
+   from item to item).  Every theorem is proved for both.
+   v_rollback: true = RenderContext.assign removes the value that breaks the namespace limit before raising
+   (repaired, C07-namespace-rollback.patch); false = the value stays (visible in WARN/LAX mode only).
+   v_super_loop: true = block.super renders the parent block under loop_iterations(enclosing) (repaired, dec4c86).
+   v_super_ns: true = block.super carries the overriding block's namespace size into the base context and refreshes
+   the overriding block's carry afterwards (repaired, C07-namespace-across-block-super.patch). *)
+Definition repaired : variant :=
+  {| v_carry := true; v_zero := true; v_item := true; v_rollback := true; v_super_loop := true; v_super_ns := true |}.
+Definition unrepaired : variant :=
+  {| v_carry := false; v_zero := false; v_item := true; v_rollback := false; v_super_loop := false; v_super_ns := false |}.
+(* one repair missing at a time (witnesses of the two inheritance defects) *)
+Definition no_super_loop : variant :=
+  {| v_carry := true; v_zero := true; v_item := true; v_rollback := true; v_super_loop := false; v_super_ns := true |}.
+Definition no_super_ns : variant :=
+  {| v_carry := true; v_zero := true; v_item := true; v_rollback := true; v_super_loop := true; v_super_ns := false |}.
 
 (* ------------------------------------------------------------------ UTF-8 *)
 Definition utf8_len (c : N) : Z :=
@@ -145,9 +197,11 @@ Inductive buf := BNull | BLim (base size : Z) (rtext : str).
 
 Definition buf_text (b : buf) : str := match b with BNull => [] | BLim _ _ rt => rev rt end.
 
+(* buf.size if isinstance(buf, LimitedStringIO) else 0 *)
+Definition cur_size (b : buf) : Z := match b with BNull => 0 | BLim _ size _ => size end.
+
 (* get_buffer(b): carry = b.size for a LimitedStringIO, 0 otherwise *)
-Definition child_of (b : buf) : buf :=
-  match b with BNull => BLim 0 0 [] | BLim _ size _ => BLim size 0 [] end.
+Definition child_of (b : buf) : buf := BLim (cur_size b) 0 [].
 
 (* LimitedStringIO.write: size is incremented, THEN compared, and only then is the text written: a refused
    write leaves the size incremented and the text unchanged.  -> (written?, buffer afterwards) *)
@@ -174,51 +228,161 @@ Fixpoint lset (x : N) (v : str * Z) (l : locals) : locals :=
   | [] => [(x, v)]
   | (y, w) :: r => if (x =? y)%N then (x, v) :: r else (y, w) :: lset x v r
   end.
-Fixpoint lget (x : N) (l : locals) : str :=
-  match l with [] => [] | (y, w) :: r => if (x =? y)%N then fst w else lget x r end.
+Fixpoint lfind (x : N) (l : locals) : option str :=
+  match l with [] => None | (y, w) :: r => if (x =? y)%N then Some (fst w) else lfind x r end.
+Definition lget (x : N) (l : locals) : str := match lfind x l with Some v => v | None => [] end.
 Fixpoint sum_sizes (l : locals) : Z := match l with [] => 0 | (_, w) :: r => snd w + sum_sizes r end.
+Fixpoint gfind (x : N) (g : list (N * str)) : option str :=
+  match g with [] => None | (y, w) :: r => if (x =? y)%N then Some w else gfind x r end.
 
 (* passed down *)
+(* what block.super needs of the context the block tag stands in *)
+Record bframe := { b_loops : list N; b_carry : N; b_copy_depth : Z; b_scope : Z; b_no_include : bool; b_no_block : bool }.
+(* the block object in scope: none | of a definition rendered in place | of the most derived definition, rendered
+   in a block-scoped copy of the context described by b *)
+Inductive sup := SupNone | SupHere | SupBase (b : bframe).
+
 Record frame := { f_loops : list N;        (* RenderContext.loops (lengths) *)
-                  f_carry : N;             (* loop_iteration_carry *)
+                  f_carry : N;             (* loop_iteration_carry (restored by loop_iterations on exit) *)
                   f_copy_depth : Z;        (* _copy_depth *)
                   f_scope : Z;             (* scope.size() *)
-                  f_ns_carry : Z;          (* local_namespace_size_carry *)
                   f_no_include : bool;     (* 'include' in disabled_tags *)
-                  f_tp : N;                (* ghost *)
-                  f_anc : Z }.             (* ghost *)
+                  f_no_block : bool;       (* 'block' in disabled_tags (macro calls) *)
+                  f_sup : sup;             (* the block object in scope *)
+                  f_bsz : option Z;        (* BlockDrop.buffer.size: None = the block's buffer is the current one;
+                                              Some z = a buffer opened since (capture, ifchanged, blank block) hides
+                                              it, and its size was z then (nothing is written to it meanwhile) *)
+                  f_tp : N }.              (* ghost *)
+
+(* a context's mutable attributes that a copy does not share *)
+Record oent := { o_locals : locals; o_ifch : str; o_nsc : Z; o_anc : Z }.
+Record cx := { x_locals : locals;
+               x_ifch : str;               (* tag_namespace["ifchanged"] *)
+               x_nsc : Z;                  (* local_namespace_size_carry *)
+               x_outer : list oent;        (* the contexts this one is a block-scoped copy of, innermost first:
+                                              their locals are readable (scope chain), block.super resumes the first *)
+               x_anc : Z }.                (* ghost *)
 
 (* threaded *)
-Record st := { s_locals : locals;
-               s_ifch : str;               (* tag_namespace["ifchanged"] *)
+Record st := { s_cx : cx;
+               s_glob : list (N * str);    (* render arguments (read only) *)
                s_buf : buf;
                s_sizes : list Z;           (* oracle: sys.getsizeof of the next assigned values *)
                s_leaf : list N;            (* ghost log, newest first: f_tp at every Text *)
                s_nslog : list (Z * Z) }.   (* log, newest first: (true total, get_size_of_locals()) after every assignment *)
 
+Definition s_locals (s : st) : locals := x_locals (s_cx s).
+Definition s_ifch (s : st) : str := x_ifch (s_cx s).
+
 Definition set_buf (s : st) (b : buf) : st :=
-  {| s_locals := s_locals s; s_ifch := s_ifch s; s_buf := b; s_sizes := s_sizes s; s_leaf := s_leaf s; s_nslog := s_nslog s |}.
-Definition set_mut (s : st) (l : locals) (i : str) : st :=
-  {| s_locals := l; s_ifch := i; s_buf := s_buf s; s_sizes := s_sizes s; s_leaf := s_leaf s; s_nslog := s_nslog s |}.
+  {| s_cx := s_cx s; s_glob := s_glob s; s_buf := b; s_sizes := s_sizes s; s_leaf := s_leaf s; s_nslog := s_nslog s |}.
+Definition set_cx (s : st) (c : cx) : st :=
+  {| s_cx := c; s_glob := s_glob s; s_buf := s_buf s; s_sizes := s_sizes s; s_leaf := s_leaf s; s_nslog := s_nslog s |}.
+Definition cx_ifch (c : cx) (i : str) : cx :=
+  {| x_locals := x_locals c; x_ifch := i; x_nsc := x_nsc c; x_outer := x_outer c; x_anc := x_anc c |}.
+Definition cx_locals (c : cx) (l : locals) : cx :=
+  {| x_locals := l; x_ifch := x_ifch c; x_nsc := x_nsc c; x_outer := x_outer c; x_anc := x_anc c |}.
+
+(* scope lookup: own locals, the locals of the enclosing block-scoped contexts, the render arguments *)
+Fixpoint ofind (x : N) (l : list oent) : option str :=
+  match l with [] => None | o :: r => match lfind x (o_locals o) with Some v => Some v | None => ofind x r end end.
+Definition lookup (x : N) (s : st) : str :=
+  match lfind x (s_locals s) with
+  | Some v => v
+  | None => match ofind x (x_outer (s_cx s)) with
+            | Some v => v
+            | None => match gfind x (s_glob s) with Some v => v | None => [] end
+            end
+  end.
+
+(* get_size_of_locals() *)
+Definition cx_size (c : cx) : Z := sum_sizes (x_locals c) + x_nsc c.
+Fixpoint outer_total (l : list oent) : Z := match l with [] => 0 | o :: r => sum_sizes (o_locals o) + outer_total r end.
+(* ghost: the measured size of ALL live local namespaces *)
+Definition cx_live (c : cx) : Z := sum_sizes (x_locals c) + outer_total (x_outer c) + x_anc c.
+
+(* copy(...): an isolated context *)
+Definition cx_copy (c : cx) : cx :=
+  {| x_locals := []; x_ifch := []; x_nsc := cx_size c; x_outer := []; x_anc := cx_live c |}.
+(* copy(..., block_scope=True) *)
+Definition cx_blk (c : cx) : cx :=
+  {| x_locals := []; x_ifch := []; x_nsc := cx_size c;
+     x_outer := {| o_locals := x_locals c; o_ifch := x_ifch c; o_nsc := x_nsc c; o_anc := x_anc c |} :: x_outer c;
+     x_anc := x_anc c |}.
+(* the block-scoped copy is dropped: back in the context it was made from *)
+Definition cx_unblk (c : cx) : option cx :=
+  match x_outer c with
+  | [] => None
+  | o :: rest => Some {| x_locals := o_locals o; x_ifch := o_ifch o; x_nsc := o_nsc o; x_outer := rest; x_anc := o_anc o |}
+  end.
+(* block.super reached from the block-scoped copy c: the base context resumes (REPAIRED: its carry raised by what c
+   holds); ghost: c stays alive meanwhile *)
+Definition cx_base (v : variant) (c : cx) : option cx :=
+  match x_outer c with
+  | [] => None
+  | o :: rest =>
+      let held := sum_sizes (x_locals c) in
+      Some {| x_locals := o_locals o; x_ifch := o_ifch o; x_nsc := o_nsc o + (if v_super_ns v then held else 0);
+              x_outer := rest; x_anc := o_anc o + held |}
+  end.
+(* ... and back: c resumes, the base context (as the parent block left it: c') is suspended again; REPAIRED: c's carry
+   is refreshed from the base context *)
+Definition cx_back (v : variant) (c c' : cx) : cx :=
+  match x_outer c with
+  | [] => c
+  | o :: rest =>
+      {| x_locals := x_locals c; x_ifch := x_ifch c;
+         x_nsc := if v_super_ns v then sum_sizes (x_locals c') + o_nsc o else x_nsc c;
+         x_outer := {| o_locals := x_locals c'; o_ifch := x_ifch c'; o_nsc := o_nsc o; o_anc := o_anc o |} :: rest;
+         x_anc := o_anc o |}
+  end.
+
+Definition bk (f : frame) : N := fold_left N.mul (f_loops f) (f_carry f).     (* what raise_for_loop_limit(1) computes *)
+Definition bkb (b : bframe) : N := fold_left N.mul (b_loops b) (b_carry b).
 
 Definition f_for (f : frame) (n : N) : frame :=         (* RenderContext.loop: push the loop, extend *)
   {| f_loops := n :: f_loops f; f_carry := f_carry f; f_copy_depth := f_copy_depth f; f_scope := f_scope f + 1;
-     f_ns_carry := f_ns_carry f; f_no_include := f_no_include f; f_tp := (f_tp f * n)%N; f_anc := f_anc f |}.
+     f_no_include := f_no_include f; f_no_block := f_no_block f; f_sup := f_sup f; f_bsz := f_bsz f; f_tp := (f_tp f * n)%N |}.
 Definition f_ext (f : frame) : frame :=                  (* RenderContext.extend *)
   {| f_loops := f_loops f; f_carry := f_carry f; f_copy_depth := f_copy_depth f; f_scope := f_scope f + 1;
-     f_ns_carry := f_ns_carry f; f_no_include := f_no_include f; f_tp := f_tp f; f_anc := f_anc f |}.
+     f_no_include := f_no_include f; f_no_block := f_no_block f; f_sup := f_sup f; f_bsz := f_bsz f; f_tp := f_tp f |}.
 Definition f_scale (v : variant) (f : frame) (n : N) : frame :=   (* RenderContext.loop_iterations (repaired) *)
   {| f_loops := f_loops f; f_carry := if v_carry v then (f_carry f * n)%N else f_carry f;
      f_copy_depth := f_copy_depth f; f_scope := f_scope f;
-     f_ns_carry := f_ns_carry f; f_no_include := f_no_include f; f_tp := (f_tp f * n)%N; f_anc := f_anc f |}.
-Definition f_copy (f : frame) (sum : Z) : frame :=       (* RenderContext.copy(carry_loop_iterations=True, disabled include) *)
-  {| f_loops := []; f_carry := fold_left N.mul (f_loops f) (f_carry f); f_copy_depth := f_copy_depth f + 1; f_scope := 4;
-     f_ns_carry := sum + f_ns_carry f; f_no_include := true; f_tp := f_tp f; f_anc := f_anc f + sum |}.
+     f_no_include := f_no_include f; f_no_block := f_no_block f; f_sup := f_sup f; f_bsz := f_bsz f; f_tp := (f_tp f * n)%N |}.
+Definition f_copy (f : frame) : frame :=       (* RenderContext.copy(carry_loop_iterations=True, disabled include) *)
+  {| f_loops := []; f_carry := bk f; f_copy_depth := f_copy_depth f + 1; f_scope := 4;
+     f_no_include := true; f_no_block := false; f_sup := SupNone; f_bsz := None; f_tp := f_tp f |}.
+Definition f_call (f : frame) : frame :=       (* the same for a macro call: block tags are disabled too *)
+  {| f_loops := []; f_carry := bk f; f_copy_depth := f_copy_depth f + 1; f_scope := 4;
+     f_no_include := true; f_no_block := true; f_sup := SupNone; f_bsz := None; f_tp := f_tp f |}.
+Definition f_blk (f : frame) : frame :=        (* RenderContext.copy(carry_loop_iterations=True, block_scope=True) *)
+  {| f_loops := []; f_carry := bk f; f_copy_depth := f_copy_depth f + 1; f_scope := 4;
+     f_no_include := f_no_include f; f_no_block := f_no_block f;
+     f_sup := SupBase {| b_loops := f_loops f; b_carry := f_carry f; b_copy_depth := f_copy_depth f;
+                         b_scope := f_scope f; b_no_include := f_no_include f; b_no_block := f_no_block f |};
+     f_bsz := None; f_tp := f_tp f |}.
+Definition f_sup_set (f : frame) (u : sup) : frame :=   (* a new block object; the buffer it is given is the current one *)
+  {| f_loops := f_loops f; f_carry := f_carry f; f_copy_depth := f_copy_depth f; f_scope := f_scope f;
+     f_no_include := f_no_include f; f_no_block := f_no_block f; f_sup := u; f_bsz := None; f_tp := f_tp f |}.
+(* block.super from the block-scoped copy (frame f): the base context b under loop_iterations(enclosing) *)
+Definition enclosing (v : variant) (b : bframe) (f : frame) : N :=
+  if v_super_loop v then N.max 1 (N.max 1 (bk f) / N.max 1 (bkb b)) else 1%N.
+Definition f_base (v : variant) (b : bframe) (f : frame) : frame :=
+  {| f_loops := b_loops b; f_carry := (b_carry b * enclosing v b f)%N; f_copy_depth := b_copy_depth b; f_scope := b_scope b;
+     f_no_include := b_no_include b; f_no_block := b_no_block b; f_sup := SupHere; f_bsz := None; f_tp := f_tp f |}.
+(* a buffer is opened on top of the current one *)
+Definition f_freeze (f : frame) (b : buf) : frame :=
+  {| f_loops := f_loops f; f_carry := f_carry f; f_copy_depth := f_copy_depth f; f_scope := f_scope f;
+     f_no_include := f_no_include f; f_no_block := f_no_block f; f_sup := f_sup f;
+     f_bsz := match f_bsz f with None => Some (cur_size b) | x => x end; f_tp := f_tp f |}.
 
 Definition frame0 : frame :=
-  {| f_loops := []; f_carry := 1%N; f_copy_depth := 0; f_scope := 4; f_ns_carry := 0; f_no_include := false; f_tp := 1%N; f_anc := 0 |}.
-Definition st0 (sizes : list Z) : st :=
-  {| s_locals := []; s_ifch := []; s_buf := BLim 0 0 []; s_sizes := sizes; s_leaf := []; s_nslog := [] |}.
+  {| f_loops := []; f_carry := 1%N; f_copy_depth := 0; f_scope := 4; f_no_include := false; f_no_block := false;
+     f_sup := SupNone; f_bsz := None; f_tp := 1%N |}.
+Definition cx0 : cx := {| x_locals := []; x_ifch := []; x_nsc := 0; x_outer := []; x_anc := 0 |}.
+Definition st0 (glob : list (N * str)) (sizes : list Z) : st :=
+  {| s_cx := cx0; s_glob := glob; s_buf := BLim 0 0 []; s_sizes := sizes; s_leaf := []; s_nslog := [] |}.
 
 (* tablerow's markup *)
 Definition tr_open : str := lit "<tr class=""row1"">" ++ [10%N].
@@ -241,6 +405,13 @@ Section Exec.
              | LErr e s' => if tolerant md then LOk s' else LErr e s'
              | r => r
              end.
+  (* the handler of the CHILD template around its extends tag: re-raised in STRICT mode; otherwise the child's
+     remaining nodes would be rendered - not modelled *)
+  Definition handle_out (m : M) : M :=
+    fun s => match m s with
+             | LErr e s' => if tolerant md then LFuel else LErr e s'
+             | r => r
+             end.
   Fixpoint iter (k : Z) (n : nat) (body : Z -> M) : M :=
     match n with O => ret | S n' => seq (body k) (iter (k + 1) n' body) end.
 
@@ -261,15 +432,16 @@ Section Exec.
   Definition nest_exceeded (body : list node) : bool := tdepth_list body >? l_nest lim.
 
   (* loading (= parsing) a template: BlockNestingError in STRICT mode; parser recovery otherwise (not modelled) *)
-  Definition nest_guard (body : list node) : M :=
-    fun s => if nest_exceeded body then (if tolerant md then LFuel else LErr XNesting s) else LOk s.
+  Definition nestd_guard (too_deep : bool) : M :=
+    fun s => if too_deep then (if tolerant md then LFuel else LErr XNesting s) else LOk s.
+  Definition nest_guard (body : list node) : M := nestd_guard (nest_exceeded body).
 
   Definition m_write (t : str) : M :=
     fun s => let '(ok, b) := buf_write (l_out lim) (s_buf s) t in
              if ok then LOk (set_buf s b) else LErr XOutput (set_buf s b).
 
   Definition m_leaf (tp : N) : M :=
-    fun s => LOk {| s_locals := s_locals s; s_ifch := s_ifch s; s_buf := s_buf s; s_sizes := s_sizes s;
+    fun s => LOk {| s_cx := s_cx s; s_glob := s_glob s; s_buf := s_buf s; s_sizes := s_sizes s;
                     s_leaf := tp :: s_leaf s; s_nslog := s_nslog s |}.
 
   (* BlockNode.render_to_output of a blank block: everything goes to a NullIO *)
@@ -278,35 +450,62 @@ Section Exec.
              | LOk s' => LOk (set_buf s' (s_buf s)) | LErr e s' => LErr e (set_buf s' (s_buf s)) | LFuel => LFuel
              end.
 
-  (* buf = context.get_buffer(buffer); render into buf; continue with buf.getvalue() and the old buffer *)
-  Definition in_child (m : M) (k : str -> M) : M :=
-    fun s => match m (set_buf s (child_of (s_buf s))) with
+  (* render into the new buffer cb; continue with cb.getvalue() and the old buffer *)
+  Definition in_childb (cb : buf) (m : M) (k : str -> M) : M :=
+    fun s => match m (set_buf s cb) with
              | LOk s' => k (buf_text (s_buf s')) (set_buf s' (s_buf s))
              | LErr e s' => LErr e (set_buf s' (s_buf s)) | LFuel => LFuel
              end.
+  (* buf = context.get_buffer(buffer) *)
+  Definition in_child (m : M) (k : str -> M) : M := fun s => in_childb (child_of (s_buf s)) m k s.
 
-  (* a copied context has its own locals and tag_namespace; the caller's are untouched *)
+  (* an isolated copied context has its own locals and tag_namespace; the caller's are untouched *)
   Definition in_ctx (m : M) : M :=
-    fun s => match m (set_mut s [] []) with
-             | LOk s' => LOk (set_mut s' (s_locals s) (s_ifch s))
-             | LErr e s' => LErr e (set_mut s' (s_locals s) (s_ifch s)) | LFuel => LFuel
+    fun s => match m (set_cx s (cx_copy (s_cx s))) with
+             | LOk s' => LOk (set_cx s' (s_cx s))
+             | LErr e s' => LErr e (set_cx s' (s_cx s)) | LFuel => LFuel
+             end.
+
+  (* a block-scoped copy: the caller's locals are readable and, through block.super, writable; they are picked up
+     again as the block left them *)
+  Definition leave_blk (s' : st) : option st :=
+    match cx_unblk (s_cx s') with Some c => Some (set_cx s' c) | None => None end.
+  (* (leave_blk gives None only where there is no block-scoped copy to leave: cannot happen) *)
+  Definition in_blk (m : M) : M :=
+    fun s => match m (set_cx s (cx_blk (s_cx s))) with
+             | LOk s' => match leave_blk s' with Some s2 => LOk s2 | None => LFuel end
+             | LErr e s' => LErr e (match leave_blk s' with Some s2 => s2 | None => s' end)
+             | LFuel => LFuel
+             end.
+
+  (* block.super from the block-scoped copy: the parent block runs in the base context *)
+  Definition in_base (m : M) : M :=
+    fun s => match cx_base v (s_cx s) with
+             | None => LFuel                   (* no block-scoped copy to leave: cannot happen *)
+             | Some cb =>
+                 match m (set_cx s cb) with
+                 | LOk s' => LOk (set_cx s' (cx_back v (s_cx s) (s_cx s')))
+                 | LErr e s' => LErr e (set_cx s' (cx_back v (s_cx s) (s_cx s')))
+                 | LFuel => LFuel
+                 end
              end.
 
   (* RenderContext.assign *)
-  Definition m_assign (f : frame) (x : N) (val : str) : M :=
+  Definition m_assign (x : N) (val : str) : M :=
     fun s => match s_sizes s with
              | [] => LFuel
              | z :: rest =>
-                 let l' := lset x (val, z) (s_locals s) in
-                 let tot := sum_sizes l' in
-                 let s' := {| s_locals := l'; s_ifch := s_ifch s; s_buf := s_buf s; s_sizes := rest; s_leaf := s_leaf s;
-                              s_nslog := (tot + f_anc f, tot + f_ns_carry f) :: s_nslog s |} in
+                 let c := s_cx s in
+                 let l' := lset x (val, z) (x_locals c) in
+                 let c' := cx_locals c l' in
+                 let s' := {| s_cx := c'; s_glob := s_glob s; s_buf := s_buf s; s_sizes := rest; s_leaf := s_leaf s;
+                              s_nslog := (cx_live c', cx_size c') :: s_nslog s |} in
                  match ns_limit with
                  | Some L =>
-                     if tot + f_ns_carry f >? L
+                     if cx_size c' >? L
                      then LErr XNamespace
                             (if v_rollback v
-                             then {| s_locals := s_locals s; s_ifch := s_ifch s; s_buf := s_buf s; s_sizes := rest;
+                             then {| s_cx := c; s_glob := s_glob s; s_buf := s_buf s; s_sizes := rest;
                                      s_leaf := s_leaf s; s_nslog := s_nslog s |}
                              else s')
                      else LOk s'
@@ -317,13 +516,18 @@ Section Exec.
   (* RenderContext.ifchanged + write *)
   Definition m_ifchanged (val : str) : M :=
     fun s => if str_eqb val (s_ifch s) then LOk s
-             else m_write val (set_mut s (s_locals s) val).
+             else m_write val (set_cx s (cx_ifch (s_cx s) val)).
+
+  (* buf = context.get_buffer(BlockDrop.buffer) ... write(buf.getvalue()) *)
+  Definition sup_buf (f : frame) (s : st) : buf :=
+    BLim (match f_bsz f with Some z => z | None => cur_size (s_buf s) end) 0 [].
+  Definition in_sup (f : frame) (m : M) : M := fun s => in_childb (sup_buf f s) m m_write s.
 
   Fixpoint exec (nd : node) (f : frame) {struct nd} : M :=
     let fix exec_list (l : list node) (f : frame) {struct l} : M :=
       match l with [] => ret | x :: r => seq (exec x f) (exec_list r f) end in
     let block (body : list node) (f : frame) : M :=
-      if blank_list body then in_null (exec_list body f) else exec_list body f in
+      if blank_list body then (fun s => in_null (exec_list body (f_freeze f (s_buf s))) s) else exec_list body f in
     (* BoundTemplate.render_with_context: extend, then every top-level node under the mode's handler *)
     let fix run_nodes (l : list node) (f : frame) {struct l} : M :=
       match l with [] => ret | x :: r => seq (handle (exec x f)) (run_nodes r f) end in
@@ -331,10 +535,10 @@ Section Exec.
       seq (guard (depth_exceeded f) XDepth) (run_nodes body (f_ext f)) in
     match nd with
     | Text t => seq (m_leaf (f_tp f)) (m_write t)
-    | Echo x => fun s => m_write (lget x (s_locals s)) s
-    | Assign x t => m_assign f x t
-    | Capture x body => in_child (block body f) (fun val => m_assign f x val)
-    | IfChanged body => in_child (block body f) m_ifchanged
+    | Echo x => fun s => m_write (lookup x s) s
+    | Assign x t => m_assign x t
+    | Capture x body => fun s => in_child (block body (f_freeze f (s_buf s))) (fun val => m_assign x val) s
+    | IfChanged body => fun s => in_child (block body (f_freeze f (s_buf s))) m_ifchanged s
     | For n body =>
         if (n =? 0)%N then ret
         else seq (guard (loop_exceeded f n) XLoop)
@@ -360,36 +564,68 @@ Section Exec.
     | Render body =>
         seq (nest_guard body)
        (seq (guard (copy_exceeded f) XDepth)
-            (fun s => in_ctx (partial body (f_copy f (sum_sizes (s_locals s)))) s))
+            (in_ctx (partial body (f_copy f))))
     | RenderFor n body =>
         seq (nest_guard body)
        (seq (guard (copy_exceeded f) XDepth)
-            (fun s => let fc := f_copy f (sum_sizes (s_locals s)) in
-                      seq (guard (loop_exceeded fc n) XLoop)
-                          (if v_item v
-                           then iter 1 (N.to_nat n) (fun _ => in_ctx (partial body (f_scale v fc n)))
-                           else in_ctx (iter 1 (N.to_nat n) (fun _ => partial body (f_scale v fc n)))) s))
+       (seq (guard (loop_exceeded (f_copy f) n) XLoop)
+            (if v_item v
+             then iter 1 (N.to_nat n) (fun _ => in_ctx (partial body (f_scale v (f_copy f) n)))
+             else in_ctx (iter 1 (N.to_nat n) (fun _ => partial body (f_scale v (f_copy f) n))))))
     | Call body =>
         seq (guard (copy_exceeded f) XDepth)
-            (fun s => in_ctx (block body (f_copy f (sum_sizes (s_locals s)))) s)
+            (in_ctx (block body (f_call f)))
+    | Block body =>
+        seq (guard (f_no_block f) XDisabled)
+       (seq (guard (copy_exceeded f) XDepth)
+            (in_blk (block body (f_blk f))))
+    | BlockD body =>
+        seq (guard (f_no_block f) XDisabled)
+       (seq (guard (depth_exceeded f) XDepth)
+            (block body (f_sup_set (f_ext f) SupNone)))
+    | Super body =>
+        match f_sup f with
+        | SupNone => ret
+        | SupHere =>
+            in_sup f (seq (guard (depth_exceeded f) XDepth) (block body (f_sup_set (f_ext f) SupHere)))
+        | SupBase b =>
+            in_sup f (in_base (seq (guard (depth_exceeded (f_base v b f)) XDepth) (block body (f_ext (f_base v b f)))))
+        end
+    | SuperU => ret
     end.
 
   Fixpoint exec_list (l : list node) (f : frame) : M :=
     match l with [] => ret | x :: r => seq (exec x f) (exec_list r f) end.
   Definition block (body : list node) (f : frame) : M :=
-    if blank_list body then in_null (exec_list body f) else exec_list body f.
+    if blank_list body then (fun s => in_null (exec_list body (f_freeze f (s_buf s))) s) else exec_list body f.
   Fixpoint run_nodes (l : list node) (f : frame) : M :=
     match l with [] => ret | x :: r => seq (handle (exec x f)) (run_nodes r f) end.
   Definition partial (body : list node) (f : frame) : M :=
     seq (guard (depth_exceeded f) XDepth) (run_nodes body (f_ext f)).
 
-  (* Environment.from_string (parse: block nesting) then BoundTemplate.render *)
+  (* the templates an extends tag loads *)
+  Definition chain_too_deep (loaded : list Z) : bool := existsb (fun d => d >? l_nest lim) loaded.
+
   (* Environment.from_string (parse: block nesting) then BoundTemplate.render; an error of the outermost
-     extend is outside every per-node handler and escapes in every mode *)
-  Definition run_prog (main : list node) (sizes : list Z) : lres st :=
-    match nest_guard main (st0 sizes) with
-    | LOk s => partial main frame0 s
-    | r => r
+     extend is outside every per-node handler and escapes in every mode.
+     chain = [] : [main] is the template itself.
+     chain = d0 :: loaded : the template is the most derived one of an inheritance chain, [main] is the body of the
+       chain's BASE template with every block's definitions inlined; d0 is the block-nesting depth of the child
+       template's own source and [loaded] those of its parents (supplied by the harness, which prints the chain). *)
+  Definition run_prog (chain : list Z) (main : list node) (glob : list (N * str)) (sizes : list Z) : lres st :=
+    match chain with
+    | [] =>
+        match nest_guard main (st0 glob sizes) with
+        | LOk s => partial main frame0 s
+        | r => r
+        end
+    | d0 :: loaded =>
+        match nestd_guard (d0 >? l_nest lim) (st0 glob sizes) with
+        | LOk s =>
+            seq (guard (depth_exceeded frame0) XDepth)
+                (handle_out (seq (nestd_guard (chain_too_deep loaded)) (partial main (f_ext frame0)))) s
+        | r => r
+        end
     end.
 End Exec.
 
@@ -411,11 +647,13 @@ Definition obs_eqb (a b : obs) : bool :=
   | _, _ => false
   end.
 
-Record case := { c_mode : mode; c_lim : limits; c_main : list node; c_sizes : list Z }.
+Record case := { c_mode : mode; c_lim : limits; c_chain : list Z; c_main : list node; c_glob : list (N * str); c_sizes : list Z }.
 
 (* what the correspondence run evaluates: the REPAIRED code *)
-Definition run_case (c : case) : obs := observe (c_lim c) (run_prog repaired (c_mode c) (c_lim c) (c_main c) (c_sizes c)).
-Definition run_case_unrepaired (c : case) : obs := observe (c_lim c) (run_prog unrepaired (c_mode c) (c_lim c) (c_main c) (c_sizes c)).
+Definition run_case (c : case) : obs :=
+  observe (c_lim c) (run_prog repaired (c_mode c) (c_lim c) (c_chain c) (c_main c) (c_glob c) (c_sizes c)).
+Definition run_case_unrepaired (c : case) : obs :=
+  observe (c_lim c) (run_prog unrepaired (c_mode c) (c_lim c) (c_chain c) (c_main c) (c_glob c) (c_sizes c)).
 
 (* the correspondence run compares a digest of the output (length, UTF-8 bytes, polynomial hash): long expected
    outputs as Gallina list literals are slow to type-check *)
@@ -437,9 +675,11 @@ Definition dobs_eqb (a b : dobs) : bool :=
 Definition run_digest (c : case) : dobs := digest (run_case c).
 
 (* one nest under several configurations (the harness groups its cases by nest: the nest term is elaborated once) *)
-Record sweep := { sw_main : list node; sw_runs : list (mode * (limits * list Z)) }.
+Record run := { r_mode : mode; r_lim : limits; r_sizes : list Z; r_glob : list (N * str) }.
+Record sweep := { sw_chain : list Z; sw_main : list node; sw_runs : list run }.
 Definition run_sweep (w : sweep) : list dobs :=
-  map (fun p => run_digest {| c_mode := fst p; c_lim := fst (snd p); c_main := sw_main w; c_sizes := snd (snd p) |}) (sw_runs w).
+  map (fun r => run_digest {| c_mode := r_mode r; c_lim := r_lim r; c_chain := sw_chain w; c_main := sw_main w;
+                              c_glob := r_glob r; c_sizes := r_sizes r |}) (sw_runs w).
 
 (* compact constructors for the harness's case files (elaborating long literal terms dominates the cost of the
    correspondence run): one limit configured, the others at their defaults (None / 30 / 30) *)
@@ -449,11 +689,12 @@ Definition ROut (x : Z) (z : list Z) : limits * list Z := (Build_limits None (So
 Definition RNs (x : Z) (z : list Z) : limits * list Z := (Build_limits None None (Some x) 30 30, z).
 Definition RDepth (x : Z) (z : list Z) : limits * list Z := (Build_limits None None None x 30, z).
 Definition RNest (x : Z) (z : list Z) : limits * list Z := (Build_limits None None None 30 x, z).
-Definition InS (r : limits * list Z) : mode * (limits * list Z) := (Strict, r).
-Definition InW (r : limits * list Z) : mode * (limits * list Z) := (Warn, r).
-Definition InL (r : limits * list Z) : mode * (limits * list Z) := (Lax, r).
+Definition InS (r : limits * list Z) : run := Build_run Strict (fst r) (snd r) [].
+Definition InW (r : limits * list Z) : run := Build_run Warn (fst r) (snd r) [].
+Definition InL (r : limits * list Z) : run := Build_run Lax (fst r) (snd r) [].
+Definition G (g : list (N * str)) (r : run) : run := Build_run (r_mode r) (r_lim r) (r_sizes r) g.
 Definition D (l h : N) : dobs := DOut l (Z.of_N l) h [].     (* ASCII-only output, no namespace log *)
 
 (* number of leaf executions and the largest true product among them (C06 reading aids) *)
 Definition leaf_log (v : variant) (c : case) : option (list N) :=
-  match run_prog v (c_mode c) (c_lim c) (c_main c) (c_sizes c) with LOk s => Some (s_leaf s) | _ => None end.
+  match run_prog v (c_mode c) (c_lim c) (c_chain c) (c_main c) (c_glob c) (c_sizes c) with LOk s => Some (s_leaf s) | _ => None end.
